@@ -39,8 +39,9 @@ META = {
              "constructed a second time with the same arguments, the object a prior holds (prior.sample().geometry), the original's object while the "
              "MODEL is a deep copy; abstract objects [record, id], 'consistent' = equal records: invariants IdentOneInput / IdentWrt (the function "
              "value / parameters the model obtains are G v / w for every equal identity), deviation GeometryMatchedByIdentity must violate both; "
-             "replayed for 4 (thorough 8) model kinds x every domain geometry where a second par2fun would change the value; inputs whose geometry "
-             "is NOT equal (other grid / size) are recorded only.  The raw values come as int / float32 / strided / read-only / column-major arrays "
+             "replayed for 4 (thorough 8) model kinds x every domain geometry where a second par2fun would change the value; a Samples object of PARAMETERS that carries no geometry "
+             "(default), an identity-like one or a mapped one with another map is converted with the MODEL's par2fun (IdentSamplesPar, deviation "
+             "SamplesConvertedWithOwnGeometry must violate); other inputs whose geometry is NOT equal (other grid / size) are recorded only.  The raw values come as int / float32 / strided / read-only / column-major arrays "
              "(layout is a field of the case; also for plain ndarray inputs)."),
     "note": ("Bounded sizes (domain function dimension 6, range 4); one argument models only (the pinned version supports one input). "
              "KLExpansion realised numerically from the original geometry object. Exact class of the output for plain ndarray input and "
